@@ -23,8 +23,30 @@ ALLOWED = {
 }
 
 
+def make_is_clock(m):
+    book_fns = m.lib_fns("bourse_book")
+
+    def is_clock(q, e, depth=0):
+        """e is the book clock read, or a parameter that receives the clock at every call site"""
+        if fld(e, m.f_clock) and field_chain(e)[0][0] == "param":
+            return True
+        if e[0] == "param" and depth < 4:
+            callers = []
+            for g in book_fns:
+                for c in m.q(g).calls(q.fn.name):
+                    if c.target is not None and c.target.path == q.fn.path:
+                        callers.append((m.q(g), c))
+            if not callers:
+                return False
+            idx = e[1] - 1
+            return all(idx < len(c.args) and is_clock(gq, c.args[idx], depth + 1) for gq, c in callers)
+        return False
+    return is_clock
+
+
 def run_typestate(ctx, m):
     ts = TypeState(m)
+    ts.is_clock = make_is_clock(m)
     roots = {}
     for name in ("place_order", "cancel_order", "modify_order"):
         f = m.book_fn(name)
@@ -42,7 +64,7 @@ def run(ctx):
 
     # ------------------------------------------------------------ state machine
     for v in ts.violations.values():
-        if v.rule in ("state-machine", "status-write", "filled-iff-zero", "typestate-anchor", "exit-invariant", "insert", "remove", "key-side"):
+        if v.rule in ("state-machine", "status-write", "filled-iff-zero", "typestate-anchor", "exit-invariant", "insert", "remove", "key-side", "end-time", "arr-time"):
             ctx.bad(v.rule, v.key, v.where, v.what)
     sw = list(ts.status_writes.values())
     for s in sw:
@@ -91,76 +113,55 @@ def run(ctx):
                   "%s may change a terminal order: %s" % (api, term_bad))
 
     # ------------------------------------------------------------ time stamps
-    clock_params = {}   # fn.path -> set of param names that always receive the clock
+    # Judged on the exit states of the API calls (typestate components 6/7), not on where in the call tree the write sits:
+    # an order that BECOMES terminal during a call must leave it with end_time := book clock written in that call, and
+    # end_time is written for no other order; an order that is placed (New -> anything) leaves with arr_time := clock,
+    # and arr_time is written for no other order.  (Stamping inside the matcher, in the placement helpers or once at the
+    # end of place_order are all the same behaviour.)
     book_fns = m.lib_fns("bourse_book")
-
-    def is_clock(q, e):
-        """e is the book clock read, or a parameter that receives the clock at every call site"""
-        if fld(e, m.f_clock) and field_chain(e)[0][0] == "param":
-            return True
-        if e[0] == "param":
-            callers = []
-            for g in book_fns:
-                for c in m.q(g).calls(q.fn.name):
-                    if c.target is not None and c.target.path == q.fn.path:
-                        callers.append((m.q(g), c))
-            if not callers:
-                return False
-            idx = e[1] - 1
-            return all(idx < len(c.args) and is_clock(gq, c.args[idx]) for gq, c in callers)
-        return False
-
+    seen_end = seen_arr = 0
+    for api, res in roots.items():
+        if api == "loader":
+            continue
+        f = m.book_fn(api)
+        bad_end, bad_orphan, bad_arr, bad_arr_orphan = set(), set(), set(), set()
+        n_term = n_placed = 0
+        for k, v in res["exit"].items():
+            for t in v:
+                became_terminal = t[0] in TERMINAL and t[4] not in TERMINAL
+                placed = t[4] == "New" and t[0] != "New"
+                if became_terminal:
+                    n_term += 1
+                    if t[6] != "clock":
+                        bad_end.add((render(k), t[4], t[0], t[6]))
+                elif t[6] is not None:
+                    bad_orphan.add((render(k), t[4], t[0]))
+                if placed:
+                    n_placed += 1
+                    if t[7] != "clock":
+                        bad_arr.add((render(k), t[0], t[7]))
+                elif t[7] is not None:
+                    bad_arr_orphan.add((render(k), t[4], t[0]))
+        seen_end += n_term
+        seen_arr += n_placed
+        ctx.check(not bad_end, "end-time", api + "|terminal", ctx.loc(f),
+                  "%s: every order that becomes Filled/Cancelled/Rejected during the call leaves it with end_time := book clock (%d exit states)" % (api, n_term),
+                  "%s: an order can become terminal without its end_time being set from the book clock: %s" % (
+                      api, "; ".join("%s %s->%s (end_time %s)" % (e, a, b2, "not written" if w is None else "written from something else") for e, a, b2, w in sorted(bad_end, key=repr))))
+        ctx.check(not bad_orphan, "end-time", api + "|orphan", ctx.loc(f), "%s: end_time is written for no order that does not become terminal in the call" % api,
+                  "%s: end_time written for an order that does not become terminal in this call: %s" % (api, "; ".join("%s %s->%s" % x for x in sorted(bad_orphan))))
+        ctx.check(not bad_arr and not bad_arr_orphan, "arr-time", api, ctx.loc(f),
+                  "%s: arr_time := book clock exactly for orders placed in the call (%d exit states)" % (api, n_placed),
+                  "%s: arrival time not set from the clock on placement (%s) / set for an order not being placed (%s)" % (api, sorted(bad_arr, key=repr), sorted(bad_arr_orphan)))
+    ctx.check(seen_end >= 4 and seen_arr >= 2, "end-time", "census", "-", "%d terminal exit states and %d placement exit states examined" % (seen_end, seen_arr))
     n_end = 0
     for f in book_fns:
         q = m.q(f)
-        ws_status = q.writes(field="status", owner="Order")
-        ws_end = q.writes(field="end_time", owner="Order")
-        ws_arr = q.writes(field="arr_time", owner="Order")
-        def status_values(w):
-            """constant status written, or the set of constants all call sites pass for a status parameter"""
-            v = status_const(w.val)
-            if v is not None:
-                return {v}
-            if w.val[0] == "param":
-                vals = set()
-                for g in book_fns:
-                    for c in m.q(g).calls(f.name):
-                        if c.target is not None and c.target.path == f.path and w.val[1] - 1 < len(c.args):
-                            sv = status_const(c.args[w.val[1] - 1])
-                            vals.add(sv)
-                return vals
-            return {None}
-        for w in ws_status:
-            news = status_values(w)
-            new = next(iter(news)) if len(news) == 1 else ("TERMINAL" if news and all(x in TERMINAL for x in news) else None)
-            if new == "TERMINAL":
-                new = "Cancelled"   # any terminal status: the pairing rule is the same
-            ent = w.addr[1]
-            if new in TERMINAL:
-                pair = [e for e in ws_end if e.b == w.b and same(e.addr[1], ent)]
-                ok = len(pair) == 1 and is_clock(q, pair[0].val)
-                ctx.check(ok, "end-time", "%s|%s" % (f.short(), new), w.loc(),
-                          "status := %s paired with %s.end_time := clock on the same path" % (new, render(ent)),
-                          "status := %s of %s is not paired with a write of its end_time from the book clock (found: %s)" % (
-                              new, render(ent), "; ".join(e.text() for e in pair) or "none"))
-            elif new == "Active":
-                pair = [e for e in ws_arr if e.b == w.b and same(e.addr[1], ent)]
-                ok = len(pair) == 1 and is_clock(q, pair[0].val)
-                ctx.check(ok, "arr-time", f.short(), w.loc(),
-                          "status := Active paired with %s.arr_time := clock" % render(ent),
-                          "status := Active of %s is not paired with a write of its arr_time from the book clock" % render(ent))
-        for e in ws_end:
+        for w in q.writes(field="end_time", owner="Order") + q.writes(field="arr_time", owner="Order"):
             n_end += 1
-            ent = e.addr[1]
-            pair = [w for w in ws_status if w.b == e.b and same(w.addr[1], ent) and status_values(w) and all(x in TERMINAL for x in status_values(w))]
-            ctx.check(len(pair) == 1, "end-time", "orphan|" + f.short(), e.loc(),
-                      "end_time written only together with a terminal status", "end_time of %s written without a terminal status write: %s" % (render(ent), e.text()))
-        for a in ws_arr:
-            ent = a.addr[1]
-            pair = [w for w in ws_status if w.b == a.b and same(w.addr[1], ent) and status_const(w.val) == "Active"]
-            ctx.check(len(pair) == 1, "arr-time", "orphan|" + f.short(), a.loc(),
-                      "arr_time written only together with status := Active", "arr_time of %s written outside placement: %s" % (render(ent), a.text()))
-    ctx.check(n_end >= 4, "end-time", "census", "-", "end_time write census: %d sites" % n_end)
+            ctx.check((f.path, w.b, w.i) in ts.time_writes, "end-time", "unvisited-writer|" + f.short(), w.loc(),
+                      "%s writer is reachable from the analysed API roots" % w.field, "%s written in a function the lifecycle analysis never reaches: %s" % (w.field, w.text()))
+    ctx.check(n_end >= 2, "end-time", "write-census", "-", "%d end_time/arr_time write sites, all visited" % n_end)
 
     # ------------------------------------------------------------ immutable identity / dense ids
     for fname in ("side", "trader_id", "order_id", "start_vol"):
